@@ -4,7 +4,6 @@ use std::cmp::Ordering;
 
 use serde::{Deserialize, Serialize};
 
-use crate::data::Ty;
 use crate::exec::*;
 use crate::run::{Ctx, Failure, Obs, Property, Tier};
 use crate::sql::quote;
@@ -100,7 +99,7 @@ impl Property for C16 {
 
     fn cases(&self, tier: Tier) -> u64 {
         match tier {
-            Tier::Quick => 8_000,
+            Tier::Quick => 24_000,
             Tier::Thorough => 100_000,
         }
     }
@@ -115,7 +114,7 @@ impl Property for C16 {
         }
         let ty = *t.pick(&TYPES);
         let p = pool(ty);
-        let mut pick = |t: &mut Tape| {
+        let pick = |t: &mut Tape| {
             let mut v = *t.pick(p);
             if ctx.excluded("c16_nan") && v == "NaN" {
                 v = "1.5";
@@ -248,7 +247,8 @@ impl Property for C16 {
         // facts
         let q1 = "SELECT (a < b) AS lt, (a = b) AS eq, (a > b) AS gt, (a <= b) AS le, (a >= b) AS ge, (a != b) AS ne, (b < a) AS rlt, (b = a) AS req, (b > a) AS rgt, \
                   (b <= c) AS le_bc, (a <= c) AS le_ac, (b = c) AS eq_bc, (a = c) AS eq_ac, (a = a) AS refl, (b < c) AS lt_bc, (a < c) AS lt_ac, \
-                  array_length(array_unique(array[a, b])) AS nu, (a IN (b, b)) AS in_b FROM t";
+                  array_length(array_unique(array[a, b])) AS nu, (a IN (b, b)) AS in_b, \
+                  array_length(array_unique(array[a, NULL, a])) AS nu_null, array_length(array_unique(array[b, a, NULL, a, b])) AS nu_null2 FROM t";
         let line = format!("a={};b={};c={};", case.a, case.b, case.c);
         let out = one(&defs, q1, &[line])?;
         if va.is_none() || vb.is_none() || vc.is_none() {
@@ -305,6 +305,13 @@ impl Property for C16 {
         if g("in_b")? != eq {
             return fail("in-vs-equality", facts);
         }
+        // a NULL element between equal elements must not keep them apart (NULL itself may or may not be kept)
+        for (key, distinct) in [("nu_null", 1u64), ("nu_null2", if eq { 1 } else { 2 })] {
+            match f.get(key) {
+                Some(J::Num(n)) if n.parse::<u64>().map(|n| n == distinct || n == distinct + 1).unwrap_or(false) => {}
+                other => return fail("array_unique-with-null", format!("{} | {} = {:?}, but the array has {} distinct non-NULL value(s) and one NULL", facts, key, other, distinct)),
+            }
+        }
 
         // consumers: GROUP BY, DISTINCT, COUNT(DISTINCT), MIN/MAX, PERCENTILE, JOIN over the key sequence a, b, a
         let keys = vec![format!("k={};", case.a), format!("k={};", case.b), format!("k={};", case.a)];
@@ -341,7 +348,18 @@ impl Property for C16 {
         if cf.get("n").map(render).unwrap_or_default() != expect_groups.to_string() {
             return fail("count-distinct-vs-equality", format!("{} | COUNT(DISTINCT) over a, b, a = {:?}", facts, cf.get("n")));
         }
-        if !eq && rend_a != rend_b && rend_a != "null" && rend_b != "null" {
+        // MIN / MAX / PERCENTILE do not depend on the order of arrival
+        let keys_rev = vec![format!("k={};", case.b), format!("k={};", case.a), format!("k={};", case.a)];
+        let c2 = one(&defs, cq, &keys_rev)?;
+        let cf2 = first_obj(&c2, cq)?;
+        for key in ["lo", "hi", "p0", "p1"] {
+            // (equal values may print differently, e.g. 0.0 and -0.0: which representative is shown is not fixed)
+            if !eq && cf.get(key).map(render) != cf2.get(key).map(render) {
+                return fail("extreme-depends-on-arrival-order", format!("{} | {} over (a, b, a) = {:?}, over (b, a, a) = {:?}", facts, key, cf.get(key).map(render), cf2.get(key).map(render)));
+            }
+        }
+        // (infinities and NaN all print as null: the check needs two different renderings)
+        if !eq && rend_a != rend_b {
             let (lo_want, hi_want) = if lt { (&rend_a, &rend_b) } else { (&rend_b, &rend_a) };
             for (key, want, law) in [("lo", lo_want, "min-vs-order"), ("hi", hi_want, "max-vs-order"), ("p0", lo_want, "percentile0-vs-order"), ("p1", hi_want, "percentile1-vs-order")] {
                 let got = cf.get(key).map(render).unwrap_or_default();
